@@ -12,14 +12,17 @@ IMPORTS = "Model.QSMCore Model.QSMSolve Model.QSMOps Model.Show"
 TOL = 1e-9
 
 
-def close(a, b, tol=TOL):
+def close(a, b, tol=TOL, rel=False):
+    """max |a - b| <= tol * scale; scale = max(1, max|b|), or max|b| alone when rel (scale-free comparison)"""
     a = np.asarray(a, float).ravel()
     b = np.asarray(b, float).ravel()
     if a.shape != b.shape:
         return False, float("inf")
     if a.size == 0:
         return True, 0.0
-    scale = max(1.0, float(np.max(np.abs(b))))
+    scale = float(np.max(np.abs(b))) if rel else max(1.0, float(np.max(np.abs(b))))
+    if scale == 0.0:
+        scale = 1.0
     dev = float(np.max(np.abs(a - b))) / scale
     return bool(np.all(np.isfinite(a)) and dev <= tol), dev
 
@@ -45,7 +48,7 @@ def run(chk):
     rng = np.random.default_rng(chk.seed)
     quick = chk.tier == "quick"
     sizes = [1, 2, 4, 7] if quick else [1, 2, 3, 4, 5, 6, 8, 12]
-    orders = [(1, 2), (2, 3), (3, 1), (2, 1)]
+    orders = [(1, 2), (2, 2), (2, 3), (3, 1), (1, 1), (2, 1)]   # unequal and equal orders, always independent lower / upper generators
     exprs, expect = [], []
     corr_bad, oracle_bad = [], []
     hist, distinct, maxdev = {}, set(), 0.0
@@ -54,15 +57,19 @@ def run(chk):
     for n in sizes:
         for kind in ["Lower", "Upper", "Square", "Symm"]:
             for rep in range(1 if quick else 2):
-                ml, mu = orders[ci % 4]
+                ml, mu = orders[ci % len(orders)]
                 ci += 1
                 s = well_conditioned(rng, kind, n, ml, mu)
                 A = gen.qsm_impl(s)
                 D = gen.den_oracle(s)
                 conds.append(float(np.linalg.cond(D)))
-                Ai = A.inv()
-                meta, dense = impl_show(Ai)
                 case = dict(op="inv", a=gen.spec_json(s))
+                try:
+                    Ai = A.inv()
+                    meta, dense = impl_show(Ai)
+                except Exception as e:  # noqa: BLE001
+                    oracle_bad.append(dict(case, expected=np.linalg.inv(D).tolist(), observed=f"raised {type(e).__name__}: {str(e)[:100]}"))
+                    continue
                 exprs.append(f"qshow K (qinv K {gen.qsm_coq(s)})")
                 expect.append((case, meta, dense))
                 hist["inv:" + kind] = hist.get("inv:" + kind, 0) + 1
